@@ -4,6 +4,7 @@ import (
 	"fmt"
 	"math/big"
 	"strings"
+	"time"
 
 	"verif/harness/core"
 	"verif/harness/gen"
@@ -275,6 +276,46 @@ func runC12(c *core.Ctx) {
 			c.Sample(map[string]any{"food.yaml": clip(w.BookText, 400), "whole log": clip(render(w.Log), 600), "blocks": k, "splits_checked": splits})
 		}
 	})
+	// histories whose headings carry the zone of the place where the log is kept, over years in which that zone
+	// changed its rules (Moscow time was +03, then +04, then +03 again; Caracas -04, -0430, -04; Istanbul moved
+	// to +03 for good): each day is shown as written, whatever days the log had before it. Real processes
+	// under TZ; the per-day reports of the whole are the reports of the parts, one after the other.
+	zones := []string{"Europe/Moscow", "America/Caracas", "Europe/Istanbul", "Asia/Pyongyang", "Europe/Berlin", "Pacific/Apia", "Australia/Lord_Howe"}
+	for zi := 0; zi < c.N(28, 280); zi++ {
+		zone := zones[zi%len(zones)]
+		loc, err := time.LoadLocation(zone)
+		if err != nil {
+			c.Count("zone_histories_skipped_no_zoneinfo", 1)
+			continue
+		}
+		r := c.Rng("zone-history", zi)
+		layout := []string{"2006/01/02 MST", "2006/01/02 15:04 -0700", "2006/01/02 15:04 MST", "2006/01/02 -07:00"}[(zi/len(zones))%4]
+		var blocks []string
+		for k := 0; k < 3+r.Intn(4); k++ {
+			t := time.Date(2005+r.Intn(17), time.Month(1+r.Intn(12)), 1+r.Intn(28), 0, 0, 0, 0, loc)
+			blocks = append(blocks, fmt.Sprintf("%s:\n  food%d: %d\n  tea: 1.5\n", t.Format(layout), k, 1+k))
+		}
+		dir := fmt.Sprintf("%s/zone%03d", c.Work, zi)
+		s := 1 + r.Intn(len(blocks)-1)
+		files := map[string]string{"whole.yaml": strings.Join(blocks, ""), "pre.yaml": strings.Join(blocks[:s], ""), "suf.yaml": strings.Join(blocks[s:], "")}
+		run.WriteFiles(dir, files)
+		env := map[string]string{"TZ": zone}
+		for _, cmd := range [][]string{{"reg"}, {"reg", "--use-old-reg-reporter"}, {"print"}, {"csv", "log"}, {"reg", "-s", "tea"}, {"reg", "-f", "food"}} {
+			on := func(f string) run.Result {
+				return run.Exec(c.HR, append([]string{"--no-color", "--no-database", "-l", f, "--date-format", layout}, cmd...), run.ExecOpts{Dir: dir, Env: env})
+			}
+			whole, pre, suf := on("whole.yaml"), on("pre.yaml"), on("suf.yaml")
+			c.Eval(3)
+			c.Count("compositions_of_zone_histories", 1)
+			if whole.Exit == 0 {
+				c.Nontrivial("zone-history", zone, layout, files["whole.yaml"], cmd[0])
+			}
+			if whole.Crashed() || (whole.Exit == 0) != (pre.Exit == 0 && suf.Exit == 0) || (whole.Exit == 0 && whole.Out != pre.Out+suf.Out) {
+				c.Violation(strings.Join(cmd, " ")+"|zone-history-not-concatenation", fmt.Sprintf("TZ=%s, layout %q: %s of the whole log (exit %d) is not the report of blocks 1..%d (exit %d) followed by the report of the rest (exit %d)", zone, layout, joinArgs(cmd), whole.Exit, s, pre.Exit, suf.Exit),
+					caseDoc{Files: files, Args: append([]string{"--no-color", "--no-database", "-l", "whole.yaml", "--date-format", layout}, cmd...), Env: env, Expected: pre.Out + suf.Out, Observed: resDoc(whole)})
+			}
+		}
+	}
 	jobs, deaths := pool.Stats()
 	c.Count("l2_jobs", jobs)
 	c.Count("l2_process_deaths", deaths)
